@@ -747,6 +747,277 @@ func pscenarios(thorough bool) []*vexp.Scenario {
 	return out
 }
 
+
+// ---------------------------------------------------------------------------
+// part C: the reprovider itself under the controlled scheduler: Reprovide
+// racing with SetKeyProvider / another Reprovide. The system is built by the
+// real New in its offline form plus the router (export VerifNewNoWorkers), so
+// no provide-worker goroutine exists; go-dsqueue's own goroutine is native,
+// idle and never touches instrumented code.
+
+type rscript struct {
+	name    string
+	kps     [][]int    // key providers: kps[0] is installed at construction
+	threads [][]string // actions: "rp" (Reprovide), "set:<i>" (SetKeyProvider(kps[i]))
+	batch   int
+	delta   int
+}
+
+type rev struct {
+	kind string // rp-start rp-ret set-start set-ret announce
+	thr  int
+	kp   int
+	err  string
+	keys []int
+}
+
+type rexec struct {
+	sc  *rscript
+	log []rev
+	sys provider.System
+}
+
+type schedRouter struct{ x *rexec }
+
+func (r *schedRouter) Provide(ctx context.Context, c cid.Cid, announce bool) error {
+	return r.ProvideMany(ctx, []mh.Multihash{c.Hash()})
+}
+
+func (r *schedRouter) ProvideMany(ctx context.Context, keys []mh.Multihash) error {
+	var ks []int
+	for _, h := range keys {
+		k := -1
+		for i, s := range syms {
+			if string(s.c.Hash()) == string(h) {
+				k = i
+				break
+			}
+		}
+		ks = append(ks, k)
+	}
+	sort.Ints(ks) // the batch is built by ranging over a map: its order is not an observation
+	r.x.log = append(r.x.log, rev{kind: "announce", thr: vsched.CurrentThread(), keys: ks})
+	vsched.Yield("router") // announcing takes time
+	return nil
+}
+
+func (x *rexec) kp(i int) provider.KeyChanFunc {
+	keys := x.sc.kps[i]
+	return func(context.Context) (<-chan cid.Cid, error) {
+		ch := vsched.Reg(make(chan cid.Cid, len(keys)+1))
+		for _, k := range keys {
+			vsched.Send((chan<- cid.Cid)(ch), syms[k].c)
+		}
+		vsched.Close(ch)
+		return ch, nil
+	}
+}
+
+func (x *rexec) Main() {
+	sc := x.sc
+	ds := dssync.MutexWrap(datastore.NewMapDatastore())
+	sys, err := provider.VerifNewNoWorkers(ds, &schedRouter{x}, provider.KeyProvider(x.kp(0)), provider.ReproviderInterval(0), provider.MaxBatchSize(uint(sc.batch)))
+	if err != nil {
+		panic(err)
+	}
+	x.sys = sys
+	for t, acts := range sc.threads {
+		t, acts := t, acts
+		vsched.GoNamed(fmt.Sprintf("caller%d", t), true, func() {
+			for _, a := range acts {
+				if a == "rp" {
+					x.log = append(x.log, rev{kind: "rp-start", thr: t})
+					err := sys.Reprovide(context.Background())
+					e := ""
+					if err != nil {
+						e = err.Error()
+					}
+					x.log = append(x.log, rev{kind: "rp-ret", thr: t, err: e})
+				} else {
+					var i int
+					fmt.Sscanf(a, "set:%d", &i)
+					x.log = append(x.log, rev{kind: "set-start", thr: t, kp: i})
+					sys.SetKeyProvider(x.kp(i))
+					x.log = append(x.log, rev{kind: "set-ret", thr: t, kp: i})
+				}
+			}
+		})
+	}
+}
+
+func (x *rexec) AtEnd(*vsched.Result) {
+	if x.sys != nil {
+		provider.VerifCloseQueue(x.sys)
+	}
+}
+
+func (x *rexec) logString() string {
+	var sb strings.Builder
+	for i, e := range x.log {
+		fmt.Fprintf(&sb, "  %2d T%d %s", i, e.thr, e.kind)
+		switch e.kind {
+		case "announce":
+			fmt.Fprintf(&sb, " %v", names(e.keys))
+		case "set-start", "set-ret":
+			fmt.Fprintf(&sb, " kp%d %v", e.kp, names(x.sc.kps[e.kp]))
+		case "rp-ret":
+			if e.err == "" {
+				sb.WriteString(" -> nil")
+			} else {
+				sb.WriteString(" -> error: " + e.err)
+			}
+		}
+		sb.WriteString("\n")
+	}
+	return sb.String()
+}
+
+func (x *rexec) Outcome() string {
+	var sb strings.Builder
+	for _, e := range x.log {
+		switch e.kind {
+		case "announce":
+			fmt.Fprintf(&sb, "a%v ", names(e.keys))
+		case "rp-ret":
+			fmt.Fprintf(&sb, "rp%d=%v ", e.thr, e.err == "")
+		case "set-ret":
+			fmt.Fprintf(&sb, "set%d ", e.kp)
+		}
+	}
+	return sb.String()
+}
+
+// Check: a Reprovide call that returned nil has announced, before it returned, every allowed key of the key
+// provider that was current when the call started, or of a newer one (one whose SetKeyProvider had started
+// before the call returned). An error return is always acceptable. No rejected key is ever announced.
+func (x *rexec) Check(*vsched.Result) *eng.Violation {
+	sc := x.sc
+	for _, e := range x.log {
+		if e.kind != "announce" {
+			continue
+		}
+		for _, k := range e.keys {
+			if k < 0 || !syms[k].allowed[0] {
+				return eng.V("rejected-key-announced", "Reprovide", "a rejected or unknown key was announced\n"+x.logString(), "concurrent", "true")
+			}
+		}
+		if len(e.keys) > sc.batch {
+			return eng.V("batch-too-large", "Reprovide", fmt.Sprintf("batch of %d keys, MaxBatchSize %d\n%s", len(e.keys), sc.batch, x.logString()), "concurrent", "true")
+		}
+	}
+	for r, e := range x.log {
+		if e.kind != "rp-ret" || e.err != "" {
+			continue
+		}
+		s := -1
+		for j := r - 1; j >= 0; j-- {
+			if x.log[j].kind == "rp-start" && x.log[j].thr == e.thr {
+				s = j
+				break
+			}
+		}
+		// positions of the set calls; "current at start" = the last SetKeyProvider that returned before s
+		cur, curStart := 0, -1
+		for j := 0; j < s; j++ {
+			if x.log[j].kind == "set-ret" {
+				cur = x.log[j].kp
+				for k := j - 1; k >= 0; k-- {
+					if x.log[k].kind == "set-start" && x.log[k].thr == x.log[j].thr && x.log[k].kp == cur {
+						curStart = k
+						break
+					}
+				}
+			}
+		}
+		cands := []int{cur}
+		for j := 0; j < r; j++ {
+			if x.log[j].kind == "set-start" {
+				// not older than cur: its SetKeyProvider call did not return before cur's call started
+				// (overlapping SetKeyProvider calls may take effect in either order)
+				ret := len(x.log)
+				for k := j + 1; k < len(x.log); k++ {
+					if x.log[k].kind == "set-ret" && x.log[k].thr == x.log[j].thr && x.log[k].kp == x.log[j].kp {
+						ret = k
+						break
+					}
+				}
+				if ret > curStart {
+					cands = append(cands, x.log[j].kp)
+				}
+			}
+		}
+		got := map[int]bool{}
+		for j := 0; j < r; j++ {
+			if x.log[j].kind == "announce" {
+				for _, k := range x.log[j].keys {
+					got[k] = true
+				}
+			}
+		}
+		ok := false
+		for _, c := range cands {
+			all := true
+			for _, k := range sc.kps[c] {
+				if syms[k].allowed[0] && !got[k] {
+					all = false
+				}
+			}
+			if all {
+				ok = true
+			}
+		}
+		if !ok {
+			overlap := false
+			for j := 0; j < r; j++ {
+				if x.log[j].kind == "rp-start" && x.log[j].thr != e.thr {
+					done := false
+					for k := j + 1; k < s; k++ {
+						if x.log[k].kind == "rp-ret" && x.log[k].thr == x.log[j].thr {
+							done = true
+						}
+					}
+					if !done {
+						overlap = true
+					}
+				}
+			}
+			return eng.V("reprovide-nil-keys-not-announced", "Reprovide", fmt.Sprintf("Reprovide (caller %d) returned nil although the allowed keys of the key provider current at its start (kp%d %v) - or of a newer one - had not all been announced when it returned\n%s", e.thr, cur, names(sc.kps[cur]), x.logString()), "overlapping_pass", fmt.Sprint(overlap))
+		}
+	}
+	return nil
+}
+
+func rscripts(thorough bool) []*rscript {
+	A, B, C, D, X := symA, symB, symC, symD, symX
+	ss := []*rscript{
+		{name: "reprovide-vs-setkeyprovider", kps: [][]int{{A, X, B}, {C, D}}, threads: [][]string{{"rp"}, {"set:1"}}, delta: 1, batch: 1},
+		{name: "reprovide-vs-set-reprovide", kps: [][]int{{A, B}, {C, X, D}}, threads: [][]string{{"rp"}, {"set:1", "rp"}}, delta: 1, batch: 1},
+		{name: "reprovide-vs-reprovide", kps: [][]int{{A, B, X}}, threads: [][]string{{"rp"}, {"rp"}}, delta: 1, batch: 2},
+		{name: "set-reprovide-vs-set-reprovide", kps: [][]int{{A}, {B}, {C}}, threads: [][]string{{"set:1", "rp"}, {"set:2", "rp"}}, batch: 1},
+	}
+	if thorough {
+		ss = append(ss, &rscript{name: "three-callers", kps: [][]int{{A, B}, {C, D}}, threads: [][]string{{"rp"}, {"set:1"}, {"rp"}}, batch: 1, delta: -1})
+	}
+	return ss
+}
+
+func rscenarios(thorough bool) []*vexp.Scenario {
+	var out []*vexp.Scenario
+	for _, s := range rscripts(thorough) {
+		s := s
+		out = append(out, &vexp.Scenario{
+			Name: s.name, BoundDelta: s.delta,
+			Cfg: vsched.Config{MaxSteps: 20000, MaxIdleFires: 2, SelectCost: 1},
+			New: func() vexp.Exec { return &rexec{sc: s} },
+		})
+	}
+	return out
+}
+
+func allScenarios(thorough bool) []*vexp.Scenario {
+	return append(pscenarios(thorough), rscenarios(thorough)...)
+}
+
 // ---------------------------------------------------------------------------
 
 func main() {
@@ -755,7 +1026,7 @@ func main() {
 			e2Worker()
 			return
 		}
-		vexp.Register(pscenarios(true)...)
+		vexp.Register(allScenarios(true)...)
 		eng.WorkerMain()
 	}
 	eng.Main("C44", "model_checking", func(r *eng.Run) {
@@ -764,7 +1035,7 @@ func main() {
 		r.Assume("a key counts as announced when it is passed to the router's ProvideMany/Provide, whether or not the router reports success")
 		r.Assume("allowlist verdicts of the 5 symbol classes are fixed by construction and cross-checked against verifcid.ValidateCid at start-up")
 		reprovidePart(r)
-		vexp.Explore(r, pscenarios(r.Thorough()), vexp.Options{Bound: eng.Pick(r, 2, 3)})
+		vexp.Explore(r, allScenarios(r.Thorough()), vexp.Options{Bound: eng.Pick(r, 2, 3)})
 	}, func(r *eng.Run, raw json.RawMessage) {
 		var probe map[string]json.RawMessage
 		json.Unmarshal(raw, &probe)
@@ -798,6 +1069,6 @@ func main() {
 			}
 			return
 		}
-		vexp.Replay(r, pscenarios(true), raw)
+		vexp.Replay(r, allScenarios(true), raw)
 	})
 }
